@@ -9,6 +9,9 @@ import Vegeta.Proofs.PlotSort
 import Vegeta.Proofs.Buckets
 import Vegeta.Proofs.PlotWF
 import Vegeta.Extracted.Facts
+import Vegeta.Props.C13
+import Vegeta.Props.C02
+import Vegeta.Props.C05
 namespace Vegeta.Props.C17
 open Vegeta.Go Vegeta.Model.LTTB Vegeta.Model.Plot
 open Vegeta.Proofs.PlotOrder (Canon specSeries specPts t0 prevOf)
@@ -699,6 +702,355 @@ theorem plot_downsampled_end_to_end (canon : Bytes → List Result) (rs : List R
     simp only [hrows]
   refine ⟨p, _, _, sels, hp, hdata, rows_sorted_by_x store p th _ _ hdata, hsel,
     Vegeta.Proofs.PlotSort.sortBy_perm rowLt _, rfl, hiff⟩
+
+/-! ### the `plot` command -/
+
+open Vegeta.Model.RoundRobin in
+/-- **The command's data block is `Plot.data` of the decoded records**: for well-formed result
+files (any number ≥ 1, any lengths) the command decodes — through the round-robin decoder of C13 —
+a list `decoded` that is a permutation of the concatenation of the files and keeps each file's own
+order, adds its records in that order, and renders `Plot.data` of the resulting plot; an `Add`
+error is returned as it is.  (`fuel`: bound on the number of decode calls, only a device of the
+model; `hw`: the decoder's `uint64` rotation counter does not wrap.) -/
+theorem plot_command_is_fold (store : Store) (th : Int) (inputs : List (List Result)) (fuel : Nat)
+    (hn : 0 < inputs.length) (hfuel : inputs.flatten.length < fuel)
+    (hw : 0 + inputs.length * fuel < two64) :
+    ∃ decoded, decoded.Perm inputs.flatten ∧ (∀ l ∈ inputs, l.Sublist decoded) ∧
+      plotCommand store th fuel (ofInputs inputs) =
+        (match Plot.addAll [] decoded with
+         | .ok p => Plot.data store p th
+         | .error e => .error e
+         | .panic => .panic) := by
+  obtain ⟨out, s', hd, hperm⟩ := Vegeta.Props.C13.rr_output_perm_concat inputs 0 fuel hn hfuel hw
+  obtain ⟨out2, s2, hd2, hsub⟩ := Vegeta.Props.C13.rr_each_input_sublist inputs 0 fuel hn hfuel hw
+  rw [hd] at hd2
+  have e : out2 = out := by cases hd2; rfl
+  subst e
+  refine ⟨out2.map (·.2), hperm, hsub, ?_⟩
+  unfold plotCommand
+  have hi : RR.init (ofInputs inputs) = ⟨ofInputs inputs, 0⟩ := rfl
+  rw [hi, hd]
+  simp only [↓reduceIte]
+  cases Plot.addAll [] (out2.map (·.2)) <;> rfl
+
+open Vegeta.Model.RoundRobin in
+/-- **Plotting several files is plotting their union**: however the results are split over files
+and ordered inside them — provided the union holds every attack's records completely (contiguous
+sequence numbers, C05 time stamps) — the command succeeds and its data block satisfies the
+end-to-end statement `plot_downsampled_end_to_end`, which does not mention the split. -/
+theorem plot_files_equal_union (canon : Bytes → List Result) (inputs : List (List Result)) (fuel : Nat)
+    (hn : 0 < inputs.length) (hfuel : inputs.flatten.length < fuel)
+    (hw : 0 + inputs.length * fuel < two64)
+    (hc : ∀ a, Canon a (canon a))
+    (hunion : ∀ a, (inputs.flatten.filter (fun r => r.attack == a)).Perm (canon a))
+    (store : Store) (hl : Lossless store)
+    (hdom : ∀ a l, msDomain ((specPts (t0 (canon a)) (canon a) l).map (·.1)) = true)
+    (hsize : ∀ a, ((canon a).length : Int) ≤ 1125899906842624)
+    (th : Int) (hth : th = 0 ∨ 3 ≤ th) :
+    ∃ p rows labels sels, plotCommand store th fuel (ofInputs inputs) = .ok (rows, labels) ∧
+      rows.Pairwise (fun a b => rowLt b a = false) ∧
+      SelectedAll th (allSeries p) sels ∧
+      rows.Perm (rowsOfSel (allSeries p).length 0 sels) ∧
+      labels = dataLabels (allSeries p) ∧
+      (∀ s, s ∈ allSeries p ↔
+        ∃ a l, (∃ r ∈ canon a, r.label = l) ∧ s = specSeries a (t0 (canon a)) (canon a) l) := by
+  obtain ⟨decoded, hperm, _, hcmd⟩ := plot_command_is_fold store th inputs fuel hn hfuel hw
+  obtain ⟨p, rows, labels, sels, hp, hdata, h1, h2, h3, h4, h5⟩ :=
+    plot_downsampled_end_to_end canon decoded hc
+      (fun a => (hperm.filter _).trans (hunion a)) store hl hdom hsize th hth
+  refine ⟨p, rows, labels, sels, ?_, h1, h2, h3, h4, h5⟩
+  rw [hcmd, hp]
+  exact hdata
+
+/-! ### composition with the attack (C02, C05): the plot of any attack -/
+
+abbrev AHit := Vegeta.Model.Attack.Hit
+abbrev ASt := Vegeta.Model.Attack.St
+abbrev AReachable := Vegeta.Model.Attack.Reachable
+
+/-- The result the attack delivers for a hit, as the plot sees it: attack name `name`, the hit's
+sequence number, `Timestamp = began + ts`, `Latency = fin − ts` (the deferred measurement), and a
+label that is free (`lbl seq`: whether the hit ended in an error is not decided by the attack's
+transition system). -/
+def hitResult (name : Bytes) (began : Int) (lbl : Nat → Bytes) (h : AHit) : Result :=
+  { attack := name, seq := h.seq, ts := began + (h.ts : Int),
+    latency := ((h.fin.getD h.ts : Nat) : Int) - (h.ts : Int), label := lbl h.seq }
+
+/-- the results of all started hits, in sequence order -/
+def attackResults (name : Bytes) (began : Int) (lbl : Nat → Bytes) (s : ASt) : List Result :=
+  s.hits.map (hitResult name began lbl)
+
+/-- the results the consumer has received, in delivery order (oldest first) -/
+def deliveredResults (name : Bytes) (began : Int) (lbl : Nat → Bytes) (s : ASt) : List Result :=
+  s.delivered.reverse.map (fun i => hitResult name began lbl (s.hits[i]?.getD default))
+
+/-- the family of in-order result lists of a plot fed by one attack -/
+def attackCanon (name : Bytes) (cs : List Result) (a : Bytes) : List Result := if a = name then cs else []
+
+theorem aux_canon_nil (a : Bytes) : Canon a [] := ⟨by simp, by simp, by simp⟩
+
+/-- **The results of any reachable attack state are in the plot theorem's domain** (C02: the
+`i`-th started hit has sequence number `i`; C05: time stamps do not decrease with the sequence
+number) — any number of workers, any interleaving. -/
+theorem attack_results_canon {w m d : Nat} {s : ASt} (h : AReachable w m d s)
+    (name : Bytes) (began : Int) (lbl : Nat → Bytes) : Canon name (attackResults name began lbl s) := by
+  refine ⟨?_, ?_, ?_⟩
+  · intro r hr
+    unfold attackResults at hr
+    rw [List.mem_map] at hr
+    obtain ⟨hh, _, e⟩ := hr
+    rw [← e]; rfl
+  · intro i r hr
+    unfold attackResults at hr
+    rw [List.getElem?_map] at hr
+    cases hi : s.hits[i]? with
+    | none => rw [hi] at hr; cases hr
+    | some hh =>
+      rw [hi] at hr
+      simp only [Option.map_some, Option.some.injEq] at hr
+      rw [← hr]
+      exact Vegeta.Props.C05.index_is_seq h i hh hi
+  · intro i j r r' hij hr hr'
+    unfold attackResults at hr hr'
+    rw [List.getElem?_map] at hr hr'
+    cases hi : s.hits[i]? with
+    | none => rw [hi] at hr; cases hr
+    | some hh =>
+      cases hj : s.hits[j]? with
+      | none => rw [hj] at hr'; cases hr'
+      | some hh' =>
+        rw [hi] at hr; rw [hj] at hr'
+        simp only [Option.map_some, Option.some.injEq] at hr hr'
+        rw [← hr, ← hr']
+        simp only [hitResult]
+        rcases Nat.lt_or_ge i j with hlt | hge
+        · have := Vegeta.Props.C05.seq_lt_imp_ts_le h i j hh hh' hlt hi hj
+          omega
+        · have : i = j := by omega
+          subst this
+          rw [hi] at hj; cases hj; omega
+
+theorem aux_perm_range (l : List Nat) (n : Nat) (hnd : l.Nodup) (hmem : ∀ i, i ∈ l ↔ i < n) :
+    l.Perm (List.range n) := by
+  rw [List.perm_iff_count]
+  intro a
+  rw [hnd.count, (List.nodup_range (n := n)).count]
+  simp only [hmem a, List.mem_range]
+
+theorem aux_map_range_getD {β} (hs : List AHit) (f : AHit → β) :
+    (List.range hs.length).map (fun i => f (hs[i]?.getD default)) = hs.map f := by
+  apply List.ext_getElem?
+  intro i
+  simp only [List.getElem?_map]
+  by_cases hi : i < hs.length
+  · rw [List.getElem?_range hi, List.getElem?_eq_getElem hi]; simp [List.getElem?_eq_getElem hi]
+  · rw [List.getElem?_eq_none (by simp; omega), List.getElem?_eq_none (by omega)]; rfl
+
+/-- **Once the results channel is closed** (`s.resultsClosed`, in particular in the terminal state
+`pc = done`) **the results the consumer received are exactly the results of all started hits**,
+each once (C02 `closed_only_after_all_delivered`, `delivered_nodup_and_started`): the delivery
+order is a permutation of the sequence order. -/
+theorem delivered_is_perm_of_all {w m d : Nat} {s : ASt} (h : AReachable w m d s)
+    (hclosed : s.resultsClosed = true) (name : Bytes) (began : Int) (lbl : Nat → Bytes) :
+    (deliveredResults name began lbl s).Perm (attackResults name began lbl s) := by
+  obtain ⟨hnd, hlt⟩ := Vegeta.Props.C02.delivered_nodup_and_started h
+  obtain ⟨_, _, _, _, _, _, hall⟩ := Vegeta.Props.C02.closed_only_after_all_delivered h hclosed
+  have hlen : s.seq = s.hits.length := (Vegeta.Proofs.Attack.core_reachable h).seqlen
+  have hp : s.delivered.reverse.Perm (List.range s.hits.length) := by
+    apply aux_perm_range
+    · exact (List.reverse_perm _).nodup_iff.mpr hnd
+    · intro i
+      rw [List.mem_reverse, ← hlen]
+      exact ⟨hlt i, hall i⟩
+  unfold deliveredResults attackResults
+  rw [← aux_map_range_getD s.hits (hitResult name began lbl)]
+  exact hp.map _
+
+/--
+**The plot of any attack** (composition of C02, C05 and C17).  Take any reachable state `s` of the
+attack's transition system — any initial and maximal worker counts, any duration, any interleaving
+of pacer, workers, consumer, `Stop` calls and clock — in which the results channel has been closed
+(`s.resultsClosed = true`; this covers the terminal state `pc = done`, and by C02 it implies that
+every started hit has delivered its result).  Present the delivered results to the plot in ANY
+arrival order `rs` (a permutation of the sequence order; `delivered_is_perm_of_all` shows the
+attack's own delivery order is one).  Then, with no further hypothesis on the results, the plot
+shows every result exactly once: `plot_downsampled_end_to_end` holds for `rs`.  The remaining
+hypotheses concern only the store (`Lossless`, consecutive points of a series < 2^31 ms apart)
+and the size bound of `downsample_exact`.  For states in which hits are still in flight see
+`plot_of_attack_in_progress`.
+-/
+theorem plot_of_any_attack {w m d : Nat} {s : ASt} (h : AReachable w m d s)
+    (name : Bytes) (began : Int) (lbl : Nat → Bytes) (rs : List Result)
+    (hrs : rs.Perm (attackResults name began lbl s))
+    (store : Store) (hl : Lossless store)
+    (hdom : ∀ l, msDomain ((specPts (t0 (attackResults name began lbl s)) (attackResults name began lbl s) l).map (·.1)) = true)
+    (hsize : (s.hits.length : Int) ≤ 1125899906842624)
+    (th : Int) (hth : th = 0 ∨ 3 ≤ th) :
+    ∃ p rows labels sels, Plot.addAll [] rs = .ok p ∧ Plot.data store p th = .ok (rows, labels) ∧
+      rows.Pairwise (fun a b => rowLt b a = false) ∧
+      SelectedAll th (allSeries p) sels ∧
+      rows.Perm (rowsOfSel (allSeries p).length 0 sels) ∧
+      labels = dataLabels (allSeries p) ∧
+      (∀ sr, sr ∈ allSeries p ↔
+        ∃ l, (∃ r ∈ attackResults name began lbl s, r.label = l) ∧
+          sr = specSeries name (t0 (attackResults name began lbl s)) (attackResults name began lbl s) l) := by
+  have hcan := attack_results_canon h name began lbl
+  generalize hcs : attackResults name began lbl s = cs at *
+  have hattack : ∀ r ∈ rs, r.attack = name := fun r hr => hcan.attack r (hrs.mem_iff.mp hr)
+  obtain ⟨p, rows, labels, sels, h1, h2, h3, h4, h5, h6, h7⟩ :=
+    plot_downsampled_end_to_end (attackCanon name cs) rs
+      (by intro a; unfold attackCanon; split
+          · rename_i e; rw [e]; exact hcan
+          · exact aux_canon_nil a)
+      (by intro a; unfold attackCanon; split
+          · rename_i e
+            have : rs.filter (fun r => r.attack == a) = rs := by
+              rw [List.filter_eq_self]; intro r hr; simp [hattack r hr, e]
+            rw [this]; exact hrs
+          · rename_i e
+            have : rs.filter (fun r => r.attack == a) = [] := by
+              rw [List.filter_eq_nil_iff]; intro r hr; simp [hattack r hr]; exact fun e' => e e'.symm
+            rw [this])
+      store hl
+      (by intro a l; unfold attackCanon; split
+          · exact hdom l
+          · simp [specPts, msDomain])
+      (by intro a; unfold attackCanon; split
+          · rw [← hcs]; simp only [attackResults, List.length_map]; exact hsize
+          · simp)
+      th hth
+  refine ⟨p, rows, labels, sels, h1, h2, h3, h4, h5, h6, ?_⟩
+  intro sr
+  rw [h7 sr]
+  constructor
+  · rintro ⟨a, l, hex, hs⟩
+    unfold attackCanon at hex hs
+    by_cases e : a = name
+    · simp only [e, ↓reduceIte] at hex hs; exact ⟨l, hex, hs⟩
+    · simp only [e, ↓reduceIte] at hex; obtain ⟨r, hr, _⟩ := hex; simp at hr
+  · rintro ⟨l, hex, hs⟩
+    refine ⟨name, l, ?_, ?_⟩ <;> simp only [attackCanon, ↓reduceIte]
+    · exact hex
+    · exact hs
+
+theorem aux_delivered_hit {w m d : Nat} {s : ASt} (h : AReachable w m d s) (i : Nat) (hi : i ∈ s.delivered)
+    (name : Bytes) (began : Int) (lbl : Nat → Bytes) :
+    ∃ hh, s.hits[i]? = some hh ∧ hh.seq = i ∧
+      (attackResults name began lbl s)[i]? = some (hitResult name began lbl hh) := by
+  obtain ⟨hh, he, _⟩ := ((Vegeta.Proofs.Attack.deliv_reachable h).mem i).mp hi
+  refine ⟨hh, he, Vegeta.Props.C05.index_is_seq h i hh he, ?_⟩
+  unfold attackResults
+  rw [List.getElem?_map, he]; rfl
+
+theorem aux_delivered_seqs {w m d : Nat} {s : ASt} (h : AReachable w m d s)
+    (name : Bytes) (began : Int) (lbl : Nat → Bytes) :
+    (deliveredResults name began lbl s).map (·.seq) = s.delivered.reverse := by
+  unfold deliveredResults
+  rw [List.map_map]
+  have : ∀ i ∈ s.delivered.reverse,
+      ((fun r : Result => r.seq) ∘ fun i => hitResult name began lbl (s.hits[i]?.getD default)) i = id i := by
+    intro i hi
+    obtain ⟨hh, he, hs, _⟩ := aux_delivered_hit h i (List.mem_reverse.mp hi) name began lbl
+    simp [he, hitResult, hs]
+  rw [List.map_congr_left this, List.map_id]
+
+/--
+**The plot of an attack that is still running** (any reachable state, hits in flight or not yet
+consumed).  Present the results delivered so far in any arrival order `rs`.  Then no `Add` fails,
+and with `k` the first sequence number that has not been delivered: the plot's series hold exactly
+the results with sequence numbers below `k` (one point each, in sequence order), and the
+delivered results with larger sequence numbers — the tail behind the gap — sit in the re-ordering
+buffer, to be released when the missing results arrive.
+-/
+theorem plot_of_attack_in_progress {w m d : Nat} {s : ASt} (h : AReachable w m d s)
+    (name : Bytes) (began : Int) (lbl : Nat → Bytes) (rs : List Result)
+    (hrs : rs.Perm (deliveredResults name began lbl s)) :
+    ∃ p ls, Plot.addAll [] rs = .ok p ∧ (rs ≠ [] → plotLookup p name = some ls) ∧
+      (∀ i, i < ls.seq → i ∈ s.delivered) ∧ ls.seq ∉ s.delivered ∧
+      (∀ l, seriesLookup ls.series l =
+        if l ∈ rs.map (·.label) then
+          some (specSeries name (t0 (attackResults name began lbl s)) ((attackResults name began lbl s).take ls.seq) l)
+        else none) ∧
+      (∀ i, bufLookup ls.buf i =
+        if i ∈ s.delivered ∧ ls.seq ≤ i then
+          ((attackResults name began lbl s)[i]?).map Vegeta.Proofs.PlotOrder.pt
+        else none) := by
+  have hcan := attack_results_canon h name began lbl
+  -- every arrived result is the canonical result of its (delivered) sequence number
+  have hmem : ∀ r ∈ rs, (attackResults name began lbl s)[r.seq]? = some r ∧ r.attack = name := by
+    intro r hr
+    have hr' := hrs.mem_iff.mp hr
+    unfold deliveredResults at hr'
+    rw [List.mem_map] at hr'
+    obtain ⟨i, hi, e⟩ := hr'
+    obtain ⟨hh, he, hs, hc⟩ := aux_delivered_hit h i (List.mem_reverse.mp hi) name began lbl
+    rw [he] at e
+    simp only [Option.getD_some] at e
+    rw [← e]
+    exact ⟨by show (attackResults name began lbl s)[hh.seq]? = _; rw [hs]; exact hc, rfl⟩
+  have hseqs : (rs.map (fun r : Result => r.seq)).Perm s.delivered.reverse := by
+    rw [← aux_delivered_seqs h name began lbl]; exact hrs.map _
+  have hnd : (rs.map (fun r : Result => r.seq) ++ []).Nodup := by
+    rw [List.append_nil, hseqs.nodup_iff, (List.reverse_perm _).nodup_iff]
+    exact (Vegeta.Props.C02.delivered_nodup_and_started h).1
+  obtain ⟨ls, hls, hp, hmex⟩ := Vegeta.Proofs.PlotOrder.addAllLS_spec name _ hcan rs [] []
+    LabeledSeries.new (Vegeta.Proofs.PlotOrder.inv_new name _) (fun r hr => (hmem r hr).1) hnd
+  simp only [List.append_nil] at hp hmex
+  have hS : ∀ i, i ∈ (rs.map (fun r : Result => r.seq)).reverse ↔ i ∈ s.delivered := by
+    intro i
+    rw [List.mem_reverse, hseqs.mem_iff, List.mem_reverse]
+  have hL : ∀ l, l ∈ (rs.map (fun r : Result => r.label)).reverse ↔ l ∈ rs.map (·.label) := by
+    intro l; rw [List.mem_reverse]
+  -- the plot routes everything to the one attack
+  have hall : ∀ a, ∃ ls', Vegeta.Proofs.PlotOrder.attackRun [] rs a = .ok ls' := by
+    intro a
+    unfold Vegeta.Proofs.PlotOrder.attackRun
+    by_cases e : a = name
+    · have : rs.filter (fun r => r.attack == a) = rs := by
+        rw [List.filter_eq_self]; intro r hr; simp [(hmem r hr).2, e]
+      rw [this]; exact ⟨ls, by simpa [plotLookup] using hls⟩
+    · have : rs.filter (fun r => r.attack == a) = [] := by
+        rw [List.filter_eq_nil_iff]; intro r hr; simp [(hmem r hr).2]; exact fun e' => e e'.symm
+      rw [this]; exact ⟨_, rfl⟩
+  obtain ⟨p, hpp, hlook⟩ := Vegeta.Proofs.PlotOrder.plot_addAll_split rs [] hall
+  refine ⟨p, ls, hpp, ?_, ?_, ?_, ?_, ?_⟩
+  · intro hne
+    rw [hlook name]
+    have hex : ∃ r ∈ rs, r.attack = name := by
+      cases rs with
+      | nil => exact absurd rfl hne
+      | cons r rest => exact ⟨r, by simp, (hmem r (by simp)).2⟩
+    rw [if_pos hex]
+    have hrun : Vegeta.Proofs.PlotOrder.attackRun [] rs name = .ok ls := by
+      unfold Vegeta.Proofs.PlotOrder.attackRun
+      have : rs.filter (fun r => r.attack == name) = rs := by
+        rw [List.filter_eq_self]; intro r hr; simp [(hmem r hr).2]
+      rw [this]; simpa [plotLookup] using hls
+    rw [hrun]
+  · intro i hi; exact (hS i).mp (hp.below i hi)
+  · intro hc; exact hmex ((hS _).mpr hc)
+  · intro l
+    rw [hp.series l]
+    by_cases hl : l ∈ rs.map (·.label)
+    · rw [if_pos ((hL l).mpr hl), if_pos hl]
+    · rw [if_neg (fun hh => hl ((hL l).mp hh)), if_neg hl]
+  · intro i
+    rw [hp.buf i]
+    by_cases hi : i ∈ s.delivered ∧ ls.seq ≤ i
+    · rw [if_pos ⟨(hS i).mpr hi.1, hi.2⟩, if_pos hi]
+    · rw [if_neg (fun hh => hi ⟨(hS i).mp hh.1, hh.2⟩), if_neg hi]
+
+/-- non-vacuity: a reachable terminal state of the attack (C02's demonstration trace: two hits,
+a spawned second worker, an external Stop) whose results were delivered out of sequence order -/
+example : ∃ s : ASt, AReachable 1 2 0 s ∧ s.resultsClosed = true ∧ s.delivered = [1, 0] ∧ s.hits.length = 2 := by
+  have hd : (Vegeta.Model.Attack.run (Vegeta.Model.Attack.init 1 2 0) Vegeta.Props.C02.demoTrace).map
+      (fun s => (s.resultsClosed, s.delivered, s.hits.length)) = some (true, [1, 0], 2) := by decide
+  cases hr : Vegeta.Model.Attack.run (Vegeta.Model.Attack.init 1 2 0) Vegeta.Props.C02.demoTrace with
+  | none => rw [hr] at hd; cases hd
+  | some s' =>
+    rw [hr] at hd
+    simp only [Option.map_some, Option.some.injEq, Prod.mk.injEq] at hd
+    exact ⟨s', Vegeta.Props.C02.aux_run_reachable 1 2 0 _ _ _ Vegeta.Model.Attack.Reachable.init hr, hd.1, hd.2.1, hd.2.2⟩
 
 /-! ### source facts binding the store model to lib/plot/timeseries.go (regenerated every run) -/
 
